@@ -499,7 +499,7 @@ walk:
 	if gross == nil {
 		maxf(r, "drawn_length_error/tolerance", math.Abs(gotSum-wantSum)/sumTol)
 	}
-	if math.Abs(gotSum-wantSum) > sumTol {
+	if !(math.Abs(gotSum-wantSum) <= sumTol) {
 		if gross == nil && fine == nil {
 			viol(r, "drawn-length-sum", fmt.Sprintf("drawn %.9g, pattern prescribes %.9g (tolerance %.3g); %s", gotSum, wantSum, sumTol, describe()))
 		} else {
